@@ -347,6 +347,12 @@ func (e *kvElection) attemptAcquire() error {
 	if err != nil {
 		// Key exists - check if we should attempt priority takeover
 		if e.cfg.AllowPriorityTakeover && e.cfg.Priority > 0 {
+			// The election may have been stopped while the Create was in
+			// flight: a stopped election must not go on to read, let alone
+			// take over, the key.
+			if e.isStopped() {
+				return err
+			}
 			return e.attemptPriorityTakeover(payloadBytes)
 		}
 
@@ -401,6 +407,14 @@ func (e *kvElection) endSupersededTerm() {
 		)
 		onDemote()
 	}
+}
+
+// isStopped reports whether the election is not running (never started, or
+// stopped by Stop/StopWithContext or through its parent context).
+func (e *kvElection) isStopped() bool {
+	e.mu.RLock()
+	defer e.mu.RUnlock()
+	return e.ctx == nil || e.ctx.Err() != nil
 }
 
 func (e *kvElection) becomeLeader(token string, rev uint64) {
@@ -519,6 +533,10 @@ func (e *kvElection) attemptPriorityTakeover(payloadBytes []byte) error {
 	if e.cfg.Priority <= currentPayload.Priority {
 		e.recordObservedLeader(currentPayload.ID, entry.Revision())
 		return fmt.Errorf("current leader has equal or higher priority: %d >= %d", currentPayload.Priority, e.cfg.Priority)
+	}
+
+	if e.isStopped() {
+		return fmt.Errorf("election stopped during priority takeover")
 	}
 
 	newRev, err := e.kv.Update(e.key, payloadBytes, entry.Revision())
